@@ -10,19 +10,19 @@ import (
 )
 
 // reference pattern semantics, written from the statement (literal, "x/**", "**/y", "!")
-type refPattern struct {
+type vh_refPattern struct {
 	excl bool
 	text string
 }
 
-func parseRef(p string) refPattern {
+func vh_parseRef(p string) vh_refPattern {
 	if len(p) > 0 && p[0] == '!' {
-		return refPattern{true, p[1:]}
+		return vh_refPattern{true, p[1:]}
 	}
-	return refPattern{false, p}
+	return vh_refPattern{false, p}
 }
 
-func parentOf(p string) string {
+func vh_parentOf(p string) string {
 	for i := len(p) - 1; i >= 0; i-- {
 		if p[i] == '/' {
 			return p[:i]
@@ -31,7 +31,7 @@ func parentOf(p string) string {
 	return ""
 }
 
-func refMatchOne(p refPattern, path string) bool {
+func vh_refMatchOne(p vh_refPattern, path string) bool {
 	t := p.text
 	if len(t) >= 3 && t[len(t)-3:] == "/**" {
 		pre := t[:len(t)-2]
@@ -47,12 +47,12 @@ func refMatchOne(p refPattern, path string) bool {
 	return path == t
 }
 
-func refMatchNaive(pats []refPattern, path string) bool {
+func vh_refMatchNaive(pats []vh_refPattern, path string) bool {
 	matched := false
 	for _, p := range pats {
-		mm := refMatchOne(p, path)
-		for q := parentOf(path); !mm && q != ""; q = parentOf(q) {
-			mm = refMatchOne(p, q)
+		mm := vh_refMatchOne(p, path)
+		for q := vh_parentOf(path); !mm && q != ""; q = vh_parentOf(q) {
+			mm = vh_refMatchOne(p, q)
 		}
 		if mm {
 			matched = !p.excl
@@ -61,18 +61,18 @@ func refMatchNaive(pats []refPattern, path string) bool {
 	return matched
 }
 
-var c16Templates = []string{"a", "b", "a/b", "a/a", "a/b/a", "!a", "!a/b", "a/**", "**/b", "!a/**", "!**/b", "!a/b/a"}
+var vh_c16Templates = []string{"a", "b", "a/b", "a/a", "a/b/a", "!a", "!a/b", "a/**", "**/b", "!a/**", "!**/b", "!a/b/a"}
 
-func choosePatterns(tag string, max int) []string {
+func vh_choosePatterns(tag string, max int) []string {
 	n := v.Choose(tag+"-n", max+1)
 	out := make([]string, n)
 	for i := range out {
-		out[i] = c16Templates[v.Choose(tag, len(c16Templates))]
+		out[i] = vh_c16Templates[v.Choose(tag, len(vh_c16Templates))]
 	}
 	return out
 }
 
-var letters = []string{"a", "b", "c"}
+var vh_letters = []string{"a", "b", "c"}
 
 // VH_C16_select: with include and exclude patterns a copy writes exactly the entries the filtered
 // walk of the same tree reports (asserted unconditionally) and, outside the class where the pinned
@@ -90,7 +90,7 @@ func VH_C16_select() {
 		yi = xi + 1 + v.Choose("Y", 2-xi)
 		pi := v.Choose("P", 2)
 		qi := pi + 1 + v.Choose("Q", 2-pi)
-		x, y, p, q, r = letters[xi], letters[yi], letters[pi], letters[qi], letters[v.Choose("R", 3)]
+		x, y, p, q, r = vh_letters[xi], vh_letters[yi], vh_letters[pi], vh_letters[qi], vh_letters[v.Choose("R", 3)]
 	}
 	m.MkDir(src+"/"+x, 0751, 3, 4, 5)
 	m.MkFile(src+"/"+x+"/"+p, []byte("p"), 0644, 1, 1, 9000000000)
@@ -105,7 +105,7 @@ func VH_C16_select() {
 	all := []string{x, x + "/" + p, e, x + "/" + q, x + "/" + q + "/" + r, y}
 	isDir := map[string]bool{x: true, e: true, x + "/" + q: true}
 
-	incS, excS := choosePatterns("inc", v.Param("NI", 1)), choosePatterns("exc", v.Param("NE", 1))
+	incS, excS := vh_choosePatterns("inc", v.Param("NI", 1)), vh_choosePatterns("exc", v.Param("NE", 1))
 	if v.Param("POP", 0) != 0 && v.Bool("populated") {
 		m.MkDir(dst+"/"+x, 0700, 9, 9, 5)
 		v.Cover("populated-destination")
@@ -130,45 +130,45 @@ func VH_C16_select() {
 	})
 	v.Assert(err == nil, "filtered walk of the source succeeds")
 
-	var inc, exc []refPattern
+	var inc, exc []vh_refPattern
 	for _, s := range incS {
-		inc = append(inc, parseRef(s))
+		inc = append(inc, vh_parseRef(s))
 	}
 	for _, s := range excS {
-		exc = append(exc, parseRef(s))
+		exc = append(exc, vh_parseRef(s))
 	}
 	keep := map[string]bool{}
 	for _, e := range all {
-		included := len(inc) == 0 || refMatchNaive(inc, e)
-		excluded := len(exc) > 0 && refMatchNaive(exc, e)
+		included := len(inc) == 0 || vh_refMatchNaive(inc, e)
+		excluded := len(exc) > 0 && vh_refMatchNaive(exc, e)
 		keep[e] = included && !excluded
 	}
 	sameAsRef := true
 	for _, e := range all {
 		want := keep[e]
 		for _, o := range all {
-			if keep[o] && isUnder(o, e) {
+			if keep[o] && vh_isUnder(o, e) {
 				want = true
 			}
 		}
-		copied := findEntry(after, e) != nil && (findEntry(before, e) == nil || !isDir[e])
-		if findEntry(before, e) != nil {
+		copied := vh_findEntry(after, e) != nil && (vh_findEntry(before, e) == nil || !isDir[e])
+		if vh_findEntry(before, e) != nil {
 			copied = walked[e] // a pre-existing directory tells nothing; fall back to the walk
 		}
 		v.Assert(copied == walked[e], "the set of copied paths equals the set the filtered walk reports")
 		if copied != want {
 			sameAsRef = false
 		}
-		if copied && isDir[e] && !keep[e] && findEntry(before, e) == nil {
+		if copied && isDir[e] && !keep[e] && vh_findEntry(before, e) == nil {
 			v.Cover("on-demand-ancestor")
-			s, d := findEntry(m.Snapshot(src), e), findEntry(after, e)
+			s, d := vh_findEntry(m.Snapshot(src), e), vh_findEntry(after, e)
 			v.Assert(d.Perm == s.Perm && d.Uid == s.Uid && d.Gid == s.Gid, "an ancestor created on demand carries the source directory's mode and owner")
 		}
 	}
 	v.Assert(len(after) <= len(all), "nothing outside the source's paths is created")
 	// classify: does some later negated pattern match an ancestor of an entry matched by an earlier pattern?
 	inClass := false
-	for _, lst := range [][]refPattern{inc, exc} {
+	for _, lst := range [][]vh_refPattern{inc, exc} {
 		for i, pi := range lst {
 			for j := i + 1; j < len(lst); j++ {
 				pj := lst[j]
@@ -176,11 +176,11 @@ func VH_C16_select() {
 					continue
 				}
 				for _, e := range all {
-					if !refMatchOne(pi, e) {
+					if !vh_refMatchOne(pi, e) {
 						continue
 					}
-					for a := parentOf(e); a != ""; a = parentOf(a) {
-						if refMatchOne(pj, a) {
+					for a := vh_parentOf(e); a != ""; a = vh_parentOf(a) {
+						if vh_refMatchOne(pj, a) {
 							inClass = true
 						}
 					}
